@@ -939,6 +939,8 @@ def filter_scenario(rng, size='quick', **over):
         lines.append('states')
         for kk in keys + absent[:1]:
             lines += [f'cf {kk}', f'cfs {kk}', f'gfc {kk}', f'c {kk}']
+    # an off-loaded filter whose index file becomes unreadable under the running session (scratch directory)
+    lines.append(f'offfault {rng.randrange(1, 10**6)}')
     return lines
 
 
